@@ -386,15 +386,14 @@ def shard_main(ctx):
         cases = [g.make(i) for i in range(rnd.randint(15, 30))]
         import sys
 
-        sys.path.insert(0, modgen.workdir())
+        if modgen.workdir() not in sys.path:  # (left in place: several threads may be loading generated modules)
+            sys.path.insert(0, modgen.workdir())
         try:
             m = modgen.load(module_source(cases, hm.__name__), "c04")
         except SyntaxError as e:
             ctx.count("harness:generated-module-syntax-error")
             ctx.notes.setdefault("syntax_errors", []).append(str(e))
             continue
-        finally:
-            sys.path.remove(modgen.workdir())
         for i, c in enumerate(cases):
             run_case(ctx, m, hm, i, c, rnd)
         modgen.unload(m)
